@@ -47,7 +47,8 @@ type e2eInput struct {
 	MinSecs, MaxSecs   int
 	PreviewSecs        int
 	Const              bool
-	Throttle           string // off | transparent | impossible
+	Throttle           string // off | transparent | impossible | tight (2 s bucket, 1 s refill: cuts and mid-event restarts)
+	PaceMs             int    `json:",omitempty"` // > 0: wait this many milliseconds after every frame
 	DeviceName         string
 	DeviceID           int
 	Lat, Long          float32
@@ -154,6 +155,8 @@ func (in e2eInput) toml(out, sock string) string {
 		sb.WriteString("activate = true\nbucket-size = \"10m\"\nmin-refill = \"10m\"\n")
 	case "impossible":
 		sb.WriteString("activate = true\nbucket-size = \"1s\"\nmin-refill = \"10m\"\n")
+	case "tight":
+		sb.WriteString("activate = true\nbucket-size = \"2s\"\nmin-refill = \"1s\"\n")
 	}
 	sb.WriteString("\n[windows]\n")
 	if in.WindowClosed {
@@ -386,6 +389,9 @@ func e2eRun(in e2eInput) e2eObs {
 			// File names have millisecond resolution; in the field frames are >= 16 ms apart, here
 			// a burst of frames processed within one millisecond would make two recordings share a name.
 			waitDrained(conn)
+			if in.PaceMs > 0 {
+				time.Sleep(time.Duration(in.PaceMs) * time.Millisecond)
+			}
 			time.Sleep(1500 * time.Microsecond)
 		}
 		conn.Close()
@@ -540,7 +546,9 @@ func e2eGen(rng *rand.Rand, i int) e2eInput {
 		// a first connection from another camera (other model / resolution / frame rate) before the one under test
 		for try := 0; try < 20; try++ {
 			p := e2eGen1(rng, i)
-			if p.Model != in.Model {
+			// prefer pairs whose per-model motion defaults differ (lepton3.5 against the others)
+			crosses := (p.Model == "lepton3.5") != (in.Model == "lepton3.5")
+			if p.Model != in.Model && (crosses || try > 10) {
 				if len(p.Items) > 50 {
 					p.Items = p.Items[:50]
 				}
@@ -714,6 +722,71 @@ func init() {
 		o := e2eRun(in)
 		emit(Case{Coq: e2eCoq(in, o), Input: in, Impl: o, Tags: []string{"probe:frame-starts-with-marker"}, Nontriv: true, Key: "inband",
 			Extra: map[string]interface{}{"finding": "frame-prefix=636c656172", "expect_fail": true}})
+	}
+	// E2ETHR: sessions with a tight throttle (2 s bucket, refill of min+preview seconds of frames per
+	// second) and continuous motion, paced in real time so that the bucket drains, the throttle cuts
+	// the recording and re-opens it from WriteFrame once the budget is back.  Where the cuts fall
+	// depends on the wall clock, so these sessions are judged here, file by file: every motion file
+	// decodes with the expected header view, starts with a background frame, carries the threshold
+	// in force (fixed threshold), holds consecutive frames equal to the frames sent, and the files
+	// are disjoint and in stream order.
+	runners["E2ETHR"] = func(rng *rand.Rand, n int, tier string, emit func(Case)) {
+		for i := 0; i < n; i++ {
+			in := e2eGen1(rng, i)
+			in.Prelude = nil
+			in.Throttle, in.PaceMs = "tight", 7
+			in.FPS, in.MinSecs, in.PreviewSecs, in.MaxSecs = 3, 1, 1, 60
+			in.SetRecorderDefaults, in.Const, in.WindowClosed, in.DiskFull = false, false, false, false
+			in.Motion.Dyn = false
+			in.Motion.Set["dynamic-threshold"] = true
+			in.Motion.Trigger, in.Motion.Count, in.Motion.Gap, in.Motion.One = 1, 1, 1, true
+			in.Motion.Set["trigger-frames"], in.Motion.Set["count-thresh"], in.Motion.Set["frame-compare-gap"], in.Motion.Set["use-one-diff-only"] = true, true, true, true
+			eff := in.effMotion()
+			lvl := int(eff.TempThresh)
+			hot := int(eff.DeltaThresh)*2 + 80
+			in.Items = nil
+			nfr := 330 + rng.Intn(60)
+			for k := 0; k < nfr; k++ {
+				it := e2eItem{Base: lvl + 60, Amp: 1, Temp: 29000, TempFF: 29500}
+				hv := lvl + 60 + hot + (k%2)*(hot+30)
+				for dy := 0; dy < 2; dy++ {
+					for dx := 0; dx < 2; dx++ {
+						it.Ov = append(it.Ov, detOv{eff.EdgePixels + 1 + dy, eff.EdgePixels + 1 + dx, clamp16(hv)})
+					}
+				}
+				in.Items = append(in.Items, it)
+			}
+			o := e2eRun(in)
+			ok, why := o.ContentOK && o.HeaderOK && o.Why == "", o.Why
+			last := -1
+			for _, f := range o.Motion {
+				if f.Thresh != lvl {
+					ok, why = false, why+fmt.Sprintf(" [threshold %d stored, %d in force]", f.Thresh, lvl)
+				}
+				if len(f.Bg) != in.W*in.H {
+					ok, why = false, why+" [no background frame]"
+				}
+				for _, id := range f.IDs {
+					if id != last+1 && !(last == -1 || id > last) {
+						ok, why = false, why+fmt.Sprintf(" [frame %d after %d]", id, last)
+					}
+					last = id
+				}
+				for k := 1; k < len(f.IDs); k++ {
+					if f.IDs[k] != f.IDs[k-1]+1 {
+						ok, why = false, why+fmt.Sprintf(" [gap inside a file: %d then %d]", f.IDs[k-1], f.IDs[k])
+					}
+				}
+			}
+			emit(Case{Coq: fmt.Sprintf("mkLag %s %d %d", coqBool(ok), len(o.Motion), nfr), Input: in,
+				Impl: map[string]interface{}{"ok": ok, "why": why, "motion_files": len(o.Motion), "ids_per_file": func() (l []int) {
+					for _, f := range o.Motion {
+						l = append(l, len(f.IDs))
+					}
+					return
+				}()},
+				Tags: []string{fmt.Sprintf("motion-files=%d", len(o.Motion)), "throttle=tight", "model=" + in.Model}, Nontriv: len(o.Motion) >= 2, Key: fmt.Sprint("thr", in.Serial)})
+		}
 	}
 	runners["E2E"] = func(rng *rand.Rand, n int, tier string, emit func(Case)) {
 		var rin e2eInput
